@@ -210,6 +210,50 @@ def spec_source_status(status0):
     return _mk(SRC, 'Source.invalidate', setup, post, run, variant='with is_valid / clone, initial status %s' % status0)
 
 
+COND_CASES = {
+    'simple': ["  if (a > b) then", "    x = 1", "  else", "    x = 2", "  end if"],
+    'nested if / else if without else in the ELSE branch': ["if (a > b) then", "  x = 1", "else", "  if (c) then", "    x = 2",
+                                                            "  else if (d) then", "    x = 3", "  end if", "end if"],
+    'nested if / else in the THEN branch': ["IF (a > b) THEN", "  if (c) then", "    x = 1", "  else", "    x = 2", "  end if",
+                                            "ELSE", "  x = 3", "ENDIF"],
+}
+
+
+def spec_conditional_children_invalid(case):
+    """visit_Conditional on a node whose own text is intact but whose children changed (INVALID_CHILDREN): header, the
+    ELSE line of THIS conditional and the footer are taken from the source, the bodies are regenerated"""
+    fn = inline(CON, 'FortranCodegenConservative.visit_Conditional', {'SourceStatus': SourceStatus})
+    lines = COND_CASES[case]
+
+    def setup(spec):
+        env = {}
+        return (env,), {}, env
+
+    def run(env):
+        class Style:
+            conditional_indent = 2
+
+        class Me:
+            depth, style = 0, Style()
+
+            def visit(self, o, **kw):
+                return '<%s>' % o
+
+            def join_lines(self, *parts):
+                return list(parts)
+        o = NodeTok(SourceTok(SourceStatus.INVALID_CHILDREN, '\n'.join(lines)))
+        o.source.lines = (10, 10 + len(lines) - 1)
+        o.__dict__.update(inline=False, has_elseif=False, body='BODY', else_body='ELSE_BODY')
+        return fn(Me(), o)
+
+    def post(env, r):
+        outer_else = [l for l in lines if l.strip().upper() == 'ELSE' and (len(l) - len(l.lstrip())) == (len(lines[0]) - len(lines[0].lstrip()))]
+        want = [lines[0], '<BODY>', outer_else[-1], '<ELSE_BODY>', lines[-1]]
+        return [('header-else-and-footer-of-this-conditional-from-source', z3.BoolVal(isinstance(r, list) and [x.strip() for x in r] == [x.strip() for x in want])),
+                ('else-keyword-line-is-an-ELSE', z3.BoolVal(isinstance(r, list) and len(r) == 5 and r[2].strip().upper() == 'ELSE'))]
+    return _mk(CON, 'FortranCodegenConservative.visit_Conditional', setup, post, run, variant='children invalid: %s' % case)
+
+
 _SPECS = {}
 POOL_REUSE = True
 
@@ -224,6 +268,7 @@ def specs(tier='quick'):
     out += [spec_handler(m) for m in sorted(set(con_methods)) if m != 'visit_Comment']
     out += [spec_handler('visit_Comment', t) for t in ('    ! a full-line comment', 'x = 1  ! inline', '!')]
     out += [spec_source_status(s) for s in (SourceStatus.VALID, SourceStatus.INVALID_NODE, SourceStatus.INVALID_CHILDREN)]
+    out += [spec_conditional_children_invalid(c) for c in COND_CASES]
     _SPECS[tier] = out
     return out
 
